@@ -147,6 +147,7 @@ func runCheck(repo, prop, tier string, rest []string) int {
 	}
 	e.computeWrittenKeys()
 	e.computeNeedPrivate()
+	e.computeNeedNode()
 	findings, err := loadFindings()
 	if err != nil {
 		return fail2("known_findings.txt: %v", err)
